@@ -56,6 +56,13 @@ def run(P, rep, tier):
     rep.floor("C16.R4", 2)
     rep.floor("C16.R5", 5)
     rep.floor("C16.R6", 7)
+    # refinement against the pinned tree for every function the rules above looked at (rules/pinned.py)
+    import os as _os
+
+    if not _os.environ.get("MDSA_PINNED_GEN"):
+        from .pinned import refine
+
+        refine(P, rep, ctx, "C16")
 
 
 # ------------------------------------------------------------------------------------------- R1
